@@ -113,7 +113,7 @@ func generate(run func(string, bool) string, rng *xvlib.Rng, full bool, out *xvl
 	// order, the kernel's SetAccountAcl / NewAccount / SetMethodAcl, a contract call), with read faults
 	nCfg, nVtx := generateVtx(run, rng, full, out)
 	out.Stats.Exhaustive = full
-	out.Stats.Rule = fmt.Sprintf("exhaustive part: account a0 (and a method) with every rule out of %d (threshold: weights {0,1/4,1/2,1} on k0,k1,k2 and on the nested account a1, thresholds {1/4,1/2,1,3/2}; key sets: every family of <= 2 subsets of the 4 members incl. the empty set) x %d rules of the nested account x ALL multisets of size <= k over a %d-URI alphabet (direct keys, keys below the nested account, other account's signer, keys below a key, self nesting, account as last component); thorough: k=4 for every pair; quick: the weight of k2 is restricted to {0,1/2} and pairs of key sets leave out k2, k=2 for every pair, k=4 for %d and k=3 for %d seeded pairs. Plus %d random cases (<=4 accounts, <=5 keys, depth <=4, weights in -1/4..1, <=7 URIs) and %d random verifyRWSetPermission cases; %d lookup-fault lines on the small universe (the nested account, the root, a key or the method rule answers an error; random cases carry such entries with probability 1/8); %d end-to-end State.VerifyTx cases on %d chains (real node: confirmed rules, pending rule changes / owner entries in the pool, signed transactions with <= 4 token inputs of keys and accounts in every order, account initiators, signatures that do not verify, SetAccountAcl / NewAccount / SetMethodAcl / a contract call pre-executed like a client does; one third with a read fault: I/O error on the rule's version pointer, evicted pending writer, error of four texts from the snapshot reader). Each multiset is one case; cases are distinct by construction (rule pair x multiset); non-trivial = at least one URI. Weight universe: %d idx / cmx lines with threshold rules in units 2^-e, e in {2,0,20,30,52,100,900,-10,-43,-44,-100,-900} and random e in -900..900, magnitudes 1 .. 2^51 around the float32 / int32 / int64-fixed-point / float64-mantissa limits, 11 shapes (at the boundary, one unit short / over, frozen, master key, negative and zero thresholds, veto weights) + random rules, |theta| + sum|w| < 2^53 so that every float64 sum is exact. Concurrency: %d conc lines (16 goroutines x 16 cases each, every concurrent answer = the sequential answer).",
+	out.Stats.Rule = fmt.Sprintf("exhaustive part: account a0 (and a method) with every rule out of %d (threshold: weights {0,1/4,1/2,1} on k0,k1,k2 and on the nested account a1, thresholds {1/4,1/2,1,3/2}; key sets: every family of <= 2 subsets of the 4 members incl. the empty set) x %d rules of the nested account x ALL multisets of size <= k over a %d-URI alphabet (direct keys, keys below the nested account, other account's signer, keys below a key, self nesting, account as last component); thorough: k=4 for every pair; quick: the weight of k2 is restricted to {0,1/2} and pairs of key sets leave out k2, k=2 for every pair, k=4 for %d and k=3 for %d seeded pairs. Plus %d random cases (<=4 accounts, <=5 keys, depth <=4, weights in -1/4..1, <=7 URIs) and %d random verifyRWSetPermission cases; %d lookup-fault lines on the small universe (the nested account, the root, a key or the method rule answers an error; random cases carry such entries with probability 1/8); %d end-to-end State.VerifyTx cases on %d chains (real node: confirmed rules, pending rule changes / owner entries in the pool, signed transactions with <= 4 token inputs of keys and accounts in every order, account initiators, signatures that do not verify, SetAccountAcl / NewAccount / SetMethodAcl / a contract call pre-executed like a client does; one third with a read fault: I/O error on the rule's version pointer, evicted pending writer, error of four texts from the snapshot reader; half of the random chains and four fixed ones carry a side-branch block 2B competing with the tip 2A that holds pending transactions (~) and transactions this node never admitted (^)). Each multiset is one case; cases are distinct by construction (rule pair x multiset); non-trivial = at least one URI. Weight universe: %d idx / cmx lines with threshold rules in units 2^-e, e in {2,0,20,30,52,100,900,-10,-43,-44,-100,-900} and random e in -900..900, magnitudes 1 .. 2^51 around the float32 / int32 / int64-fixed-point / float64-mantissa limits, 11 shapes (at the boundary, one unit short / over, frozen, master key, negative and zero thresholds, veto weights) + random rules, |theta| + sum|w| < 2^53 so that every float64 sum is exact. Concurrency: %d conc lines (16 goroutines x 16 cases each, every concurrent answer = the sequential answer).",
 		len(roots), len(nested), len(strings.Fields(accAlphabet)), pairsK4, pairsK3, nRand, nRW, nFault, nVtx, nCfg, nWide, nConc)
 }
 
